@@ -23,6 +23,8 @@ ASSUMPTIONS = [
     "bulk comparison of observation texts goes through a three-sum digest computed on both sides (ItemsObs.digest); "
     "a sample of cases is compared as full text",
     "value semantics: items handed to a section are fresh objects (one object is never in two places)",
+    "assign_duplicate_suffixes() (no argument) iterates a Python set of useful mnemonics; the model folds over them in "
+    "list order (the rule is idempotent per group, so the order is immaterial; runs use PYTHONHASHSEED=0)",
 ]
 
 
@@ -257,67 +259,122 @@ def check_ops(tr, curve, ops):
 
 
 # ---- generation -------------------------------------------------------------------------------------
-def gen_sequences(ctx):
-    """yields (tr, curve, op templates, family)"""
-    full, mid = ic.full_alphabet(), ic.mid_alphabet()
+ALPHABETS = {"full": ic.full_alphabet, "mid": ic.mid_alphabet}
+SAMPLE_EVERY = 97
+
+
+def families(ctx):
+    """(family, alphabet, length, tr, curve): ALL sequences of exactly that length"""
+    fams = []
     for tr in (False, True):
-        for tm in ic.sequences(full, 2, exact=False):
-            yield tr, False, tm, "full<=2"
-        for tm in ic.sequences(mid, 2, exact=False):
-            yield tr, True, tm, "mid<=2(curves)"
+        fams += [("full<=2", "full", n, tr, False) for n in (1, 2)]
+        fams += [("mid<=2(curves)", "mid", n, tr, True) for n in (1, 2)]
         if ctx.thorough:
-            for tm in ic.sequences(full, 2, exact=False):
-                yield tr, True, tm, "full<=2(curves)"
-            for tm in ic.sequences(mid, 3):
-                yield tr, False, tm, "mid=3"
+            fams += [("full<=2(curves)", "full", n, tr, True) for n in (1, 2)]
+            fams += [("mid=3", "mid", 3, tr, False)]
+    return fams
+
+
+def decode_input(inp):
+    recs = inp.split(ic.RS)
+    hd = recs[0].split(ic.FS)
+    return hd[0] == "T", hd[1] == "T", [r.split(ic.FS) for r in recs[3:]]
+
+
+def decode_probes(inp):
+    recs = inp.split(ic.RS)
+    pk = ic.PROBE_KEYS if recs[1] == "" and recs[2] == "" else recs[1].split(ic.FS)
+    pi = ic.PROBE_INTS if recs[2] == "" else [int(z) for z in recs[2].split(ic.FS)]
+    return pk, pi
+
+
+def run_one(tr, curve, ops, keep_text, seen, state_probes=False):
+    """-> (input, digest, text or None, violations); the oracle runs once per distinct final state"""
+    pk, pi = ic.PROBE_KEYS, ic.PROBE_INTS
+    if state_probes:
+        sim = ic.Sim(tr, curve)
+        for o in ops:
+            sim.apply(o)
+        pk = probe_keys_for(sim.s)[:16]
+        pi = probe_ints_for(sim.s)
+    inp, exp, sim = ic.run_sequence(tr, curve, ops, mode="h", pk=pk, pi=pi)
+    viol = []
+    sig = signature(sim.s, curve)
+    if sig not in seen:
+        seen.add(sig)
+        for (name, k, text) in oracle_state(sim.s, probe_keys_for(sim.s), probe_ints_for(sim.s)):
+            viol.append({"payload": {"kind": "seq", "tr": tr, "curve": curve, "ops": ops, "check": name, "key": k},
+                         "what": "after %s (transforms=%s): key %r: %s" % (ops, tr, k, text)})
+    return inp, ic.digest(exp), (exp if keep_text else None), viol
+
+
+def work_chunk(job):
+    import itertools
+    fam, alpha_name, length, tr, curve, first = job
+    alpha = ALPHABETS[alpha_name]()
+    out = {"fam": fam, "cases": [], "texts": [], "viol": [], "seen": set()}
+    for rest in itertools.product(alpha, repeat=length - 1):
+        ops = ic.instantiate([alpha[first]] + list(rest), curve)
+        keep = len(out["cases"]) % SAMPLE_EVERY == 0
+        inp, dig, text, viol = run_one(tr, curve, ops, keep, out["seen"])
+        if keep:
+            out["texts"].append((len(out["cases"]), text))
+        out["cases"].append((inp, dig))
+        out["viol"] += viol[:5]
+    return out
+
+
+def run(ctx):
+    import multiprocessing
+    import lasio  # noqa: F401  (imported before forking)
+    res = lib.Result()
+    cases, texts = [], {}
+    seen = set()
+    hist = {}
+    jobs = []
+    for (fam, alpha_name, length, tr, curve) in families(ctx):
+        for first in range(len(ALPHABETS[alpha_name]())):
+            jobs.append((fam, alpha_name, length, tr, curve, first))
+    with multiprocessing.get_context("fork").Pool(12) as pool:
+        for out in pool.imap(work_chunk, jobs, chunksize=2):
+            base = len(cases)
+            cases += out["cases"]
+            for (j, t) in out["texts"]:
+                texts[base + j] = t
+            hist[out["fam"]] = hist.get(out["fam"], 0) + len(out["cases"])
+            seen |= out["seen"]
+            res.oracle_violations += out["viol"]
     n_rand = 6000 if ctx.thorough else 600
     for j in range(n_rand):
         tr = ctx.rng.random() < 0.5
         curve = ctx.rng.random() < 0.3
-        yield tr, curve, ic.random_sequence(ctx.rng, 30, tr, curve), "random<=30"
-
-
-def run(ctx):
-    res = lib.Result()
-    cases, full_text, meta = [], [], []
-    seen = set()
-    hist = {}
-    for tr, curve, tm, fam in gen_sequences(ctx):
-        ops = ic.instantiate(tm, curve)
-        sim = ic.Sim(tr, curve)           # oracle probes use state-dependent keys
-        pk, pi = ic.PROBE_KEYS, ic.PROBE_INTS
-        if fam.startswith("random"):
-            for o in ops:
-                sim.apply(o)
-            pk = probe_keys_for(sim.s)[:16]
-            pi = probe_ints_for(sim.s)
-        inp, exp, sim = ic.run_sequence(tr, curve, ops, mode="h", pk=pk, pi=pi)
-        cases.append((inp, ic.digest(exp)))
-        full_text.append((inp, exp))
-        meta.append((tr, curve, ops))
-        hist[fam] = hist.get(fam, 0) + 1
-        sig = signature(sim.s, curve)
-        if sig not in seen:
-            seen.add(sig)
-            for (name, k, text) in oracle_state(sim.s, probe_keys_for(sim.s), probe_ints_for(sim.s)):
-                res.oracle_violations.append(
-                    {"payload": {"kind": "seq", "tr": tr, "curve": curve, "ops": ops, "check": name, "key": k},
-                     "what": "after %s (transforms=%s): key %r: %s" % (ops, tr, k, text)})
+        ops = ic.instantiate(ic.random_sequence(ctx.rng, 30, tr, curve), curve)
+        inp, dig, text, viol = run_one(tr, curve, ops, j % 10 == 0, seen, state_probes=True)
+        if text is not None:
+            texts[len(cases)] = text
+        cases.append((inp, dig))
+        hist["random<=30"] = hist.get("random<=30", 0) + 1
+        res.oracle_violations += viol
     res.cases = len(cases)
     res.oracle_violations.sort(key=lambda v: len(v["payload"]["ops"]))      # shortest history first
     if ctx.build.model_ok:
         mism, err = lib.run_coq_cases("c15", [], ic.RUN_DIGEST, cases, shard=1000)
         res.corr_error = err
         # a sample (and every digest mismatch) is compared as full text
-        step = max(1, len(cases) // 300)
-        sample = sorted(set(list(range(0, len(cases), step)) + mism[:200]))
-        m2, err2 = lib.run_coq_cases("c15f", [], ic.RUN_CASE, [full_text[i] for i in sample], shard=100)
+        sample = sorted(texts)
+        full = [(cases[i][0], texts[i]) for i in sample]
+        for i in mism[:200]:
+            if i not in texts:
+                tr, curve, ops = decode_input(cases[i][0])
+                pk, pi = decode_probes(cases[i][0])
+                full.append((cases[i][0], ic.run_sequence(tr, curve, ops, mode="h", pk=pk, pi=pi)[1]))
+                sample.append(i)
+        m2, err2 = lib.run_coq_cases("c15f", [], ic.RUN_CASE, full, shard=100)
         res.corr_error = res.corr_error or err2
-        bad = sorted(set(mism) | {sample[i] for i in m2})
-        for i in bad:
-            tr, curve, ops = meta[i]
-            res.mismatches.append({"tr": tr, "curve": curve, "ops": ops, "impl": full_text[i][1][:1500]})
-        res.extra["full_text_cases"] = len(sample)
+        for i in sorted(set(mism) | {sample[i] for i in m2}):
+            tr, curve, ops = decode_input(cases[i][0])
+            res.mismatches.append({"tr": tr, "curve": curve, "ops": ops})
+        res.extra["full_text_cases"] = len(full)
     else:
         res.corr_error = "model not built"
     res.distinct_nontrivial = len(seen)
@@ -328,7 +385,7 @@ def run(ctx):
                 "the last step; distinct_nontrivial = distinct final states (original/session name lists x flag x "
                 "item kind) on which the direct oracle was evaluated for all probe keys"
                 % (len(ic.full_alphabet()), len(ic.mid_alphabet()), " and length 3" if ctx.thorough else ""))
-    res.samples = [repr(meta[i][2]) for i in (0, len(meta) // 3, len(meta) // 2, len(meta) - 1)]
+    res.samples = [repr(decode_input(cases[i][0])[2]) for i in (0, len(cases) // 3, len(cases) // 2, len(cases) - 1)]
     res.histogram = hist
     return res
 
